@@ -9,8 +9,10 @@ package main
 
 import (
 	_ "embed"
+	"encoding/json"
 	"fmt"
 	"os"
+	"regexp"
 	"runtime"
 	"strings"
 
@@ -91,7 +93,7 @@ func runHistory(h []action, tape vsched.Tape) (res result) {
 	invalid := false
 	var outcome string
 	var expectParked int64 = -1
-	res.rep = vsched.Run(tape, 20000, func() {
+	body := func() {
 		r := rt.New(nil)
 		runtime.SetFinalizer(r, nil)
 		cleanup := lib.LoadLibs(r, base.LibLoader, packagelib.LibLoader, coroutine.LibLoader, tablelib.LibLoader, runtimelib.LibLoader)
@@ -147,7 +149,11 @@ func runHistory(h []action, tape vsched.Tape) (res result) {
 		rt.SolemnlyDeclareCompliance(allFlags, emit, choose)
 		clos := r.LoadLuaUnit(unit, rt.TableValue(env))
 		term := rt.NewTerminationWith(nil, 0, true)
-		err := rt.Call(r.MainThread(), rt.FunctionValue(clos), nil, term)
+		// The host calls the chunk the way pcall does (a plain rt.Call is an
+		// unprotected call: on error it does not unwind to-be-closed variables).
+		_, err := r.MainThread().CallContext(rt.RuntimeContextDef{}, func() error {
+			return rt.Call(r.MainThread(), rt.FunctionValue(clos), nil, term)
+		})
 		if err != nil {
 			outcome = "err " + canon.Value(rt.ErrorValue(err))
 		} else {
@@ -165,7 +171,12 @@ func runHistory(h []action, tape vsched.Tape) (res result) {
 		if cleanup != nil {
 			cleanup()
 		}
-	})
+	}
+	if tape == nil {
+		body() // free running: vsched falls back to the real primitives
+	} else {
+		res.rep = vsched.Run(tape, 20000, body)
+	}
 	res.invalid = invalid || pos < len(h)
 	res.consumed = pos
 	res.obs = fmt.Sprintf("%s | %s | live=%d", strings.Join(trace, " ; "), outcome, expectParked)
@@ -281,6 +292,11 @@ func families(tier string) []*core.Family {
 	for _, f := range fcs {
 		out = append(out, family(f.c, f.budget))
 	}
+	if tier == "thorough" {
+		out = append(out, refFamily([]string{"A", "B", "C"}, 7, 3, 900))
+	} else {
+		out = append(out, refFamily([]string{"A", "B"}, 5, 2, 120))
+	}
 	return out
 }
 
@@ -375,6 +391,122 @@ func family(c cfg, budget int) *core.Family {
 	}
 }
 
+var strRe = regexp.MustCompile(`s:"((?:[^"\\]|\\.)*)"`)
+var scriptStrings = map[string]bool{"start": true, "resume": true, "call": true, "pcallcall": true, "yield": true, "close": true,
+	"status": true, "info": true, "closing": true, "closing2": true, "tbc-exit": true, "tbc2-exit": true, "pcall": true, "ctx": true, "ctxm": true,
+	"h-resume": true, "h-status": true, "h-yield": true, "h-close": true, "h-other": true, "final": true, "stop": true,
+	"A": true, "B": true, "C": true, "M": true, "none": true, "unstarted": true, "suspended": true, "running": true, "normal": true, "dead": true,
+	"create": true, "wrap": true, "return": true, "error": true, "errort": true, "tbc": true, "tbcres": true, "spin": true}
+var errRe = regexp.MustCompile(`^(?:[^:"]+:\d+: )?(E\d+)$`)
+
+// normObs masks what the manual leaves open: the text of implementation
+// generated error messages, and an optional position prefix on a string error
+// propagated through coroutine.wrap.
+func normObs(o string) string {
+	return strRe.ReplaceAllStringFunc(o, func(m string) string {
+		inner := strRe.FindStringSubmatch(m)[1]
+		if scriptStrings[inner] {
+			return m
+		}
+		if e := errRe.FindStringSubmatch(inner); e != nil {
+			return `s:"` + e[1] + `"`
+		}
+		return msgAny
+	})
+}
+
+// refFamily compares, for every history to the depth bound (default schedule),
+// golua's observation with the reference model refco.
+func refFamily(names []string, depth, prefix, budget int) *core.Family {
+	al := alphabet(names)
+	n := uint64(len(al))
+	size := uint64(1)
+	for i := 0; i < prefix; i++ {
+		size *= n
+	}
+	decode := func(i uint64) []action {
+		h := make([]action, prefix)
+		for k := prefix - 1; k >= 0; k-- {
+			h[k] = al[i%n]
+			i /= n
+		}
+		return h
+	}
+	return &core.Family{
+		Name: fmt.Sprintf("refco-depth%d-co%d", depth, len(names)), Size: size, HangSeconds: 300, BudgetSeconds: budget,
+		Show: func(i uint64) string {
+			return "histories starting with [" + histString(decode(i)) + "], all extensions to the depth bound, compared with the reference model"
+		},
+		Run: func(i uint64) core.Outcome {
+			var o core.Outcome
+			var dfs func(h []action)
+			check := func(h []action) (extend bool) {
+				want, modelled, invalid := refRun(h)
+				if !modelled || invalid {
+					return false
+				}
+				r := runHistory(h, zeroTape{})
+				o.States++
+				o.Trans++
+				bad := r.rep.Deadlock != "" || len(r.rep.Panics) > 0 || r.rep.Horizon
+				got := normObs(r.obs)
+				if bad {
+					got = fmt.Sprintf("%s deadlock=%q panics=%v", got, r.rep.Deadlock, r.rep.Panics)
+				}
+				o.Sig ^= core.Hash64(want)
+				if bad || got != normObs(want) || r.invalid {
+					o.Viols = append(o.Viols, &core.Violation{
+						Key:    fmt.Sprintf("hist=[%s] clause=differs-from-reference", histString(h)),
+						Detail: fmt.Sprintf("golua:     %s\nreference: %s\n(invalid-in-golua=%v)", got, normObs(want), r.invalid),
+					})
+					return false
+				}
+				return true
+			}
+			dfs = func(h []action) {
+				if core.Expired() {
+					o.Partial = true
+					return
+				}
+				if !check(h) || len(h) >= depth {
+					return
+				}
+				for _, a := range al {
+					dfs(append(append([]action{}, h...), a))
+				}
+			}
+			if i == 0 {
+				var short func(h []action)
+				short = func(h []action) {
+					if len(h) > 0 && !check(h) {
+						return
+					}
+					if len(h)+1 < prefix {
+						for _, a := range al {
+							short(append(append([]action{}, h...), a))
+						}
+					}
+				}
+				short(nil)
+			}
+			start := decode(i)
+			for k := 1; k < len(start); k++ {
+				if _, modelled, invalid := refRun(start[:k]); !modelled || invalid {
+					o.Skipped = i != 0 || o.States == 0
+					o.NonTrivial = o.States > 0
+					return o
+				}
+			}
+			dfs(start)
+			o.NonTrivial = o.States > 0
+			if o.States == 0 {
+				o.Skipped = true
+			}
+			return o
+		},
+	}
+}
+
 func debugHist(spec string) {
 	compileOnce()
 	rt.VerifSetFinalizerSeam(func(obj interface{}, fin interface{}) {})
@@ -395,6 +527,8 @@ func debugHist(spec string) {
 	}
 	r := runHistory(h, zeroTape{})
 	fmt.Printf("default schedule: invalid=%v consumed=%d\n  obs: %s\n  report: %+v\n", r.invalid, r.consumed, r.obs, r.rep)
+	want, modelled, inv := refRun(h)
+	fmt.Printf("reference (modelled=%v invalid=%v):\n  ref: %s\n  got: %s\n  equal=%v\n", modelled, inv, normObs(want), normObs(r.obs), normObs(want) == normObs(r.obs))
 	var o core.Outcome
 	exploreHistory(h, cfg{bound: 2, maxExec: 100000}, &o)
 	fmt.Printf("schedules explored: %d\n", o.Trans)
@@ -403,7 +537,54 @@ func debugHist(spec string) {
 	}
 }
 
+// freeRace is the separate free-running pass for the Go race detector: the
+// same harness bodies, real goroutines and channels (vsched falls back to the
+// primitives it replaces when no controlled run is active).  Built with -race
+// by run.sh; any report of the detector makes the process exit with status 66.
+func freeRace(depth, reps int) {
+	compileOnce()
+	rt.VerifSetFinalizerSeam(func(obj interface{}, fin interface{}) {})
+	al := alphabet([]string{"A", "B"})
+	histories, runs := 0, 0
+	leaks := 0
+	var dfs func(h []action)
+	dfs = func(h []action) {
+		if len(h) > 0 {
+			before := runtime.NumGoroutine()
+			r := runHistory(h, nil)
+			if r.invalid {
+				return
+			}
+			histories++
+			runs++
+			var first = r.obs
+			for k := 1; k < reps; k++ {
+				r2 := runHistory(h, nil)
+				runs++
+				if r2.obs != first {
+					fmt.Printf("FREE-RUN-DIFFERS hist=[%s]\n  %s\n  %s\n", histString(h), first, r2.obs)
+				}
+			}
+			_ = before
+		}
+		if len(h) >= depth {
+			return
+		}
+		for _, a := range al {
+			dfs(append(append([]action{}, h...), a))
+		}
+	}
+	dfs(nil)
+	fmt.Printf("{\"histories\": %d, \"runs\": %d, \"gomaxprocs\": %d, \"goroutines_at_end\": %d, \"leaks\": %d}\n", histories, runs, runtime.GOMAXPROCS(0), runtime.NumGoroutine(), leaks)
+}
+
 func main() {
+	if d := os.Getenv("C09_FREERACE"); d != "" {
+		depth := 3
+		fmt.Sscan(d, &depth)
+		freeRace(depth, 2)
+		return
+	}
 	// One OS thread is enough (exactly one managed goroutine runs at a time)
 	// and makes the hand-offs 5x cheaper.
 	runtime.GOMAXPROCS(1)
@@ -421,5 +602,15 @@ func main() {
 			"the luagc pool mutex is not driven: the finaliser seam keeps Go's finaliser goroutine out of the pool, so only the running coroutine touches it",
 		},
 		Families: families,
+		Extra: func(tier string) map[string]interface{} {
+			m := map[string]interface{}{"bounds": "see family names: depth = history length, bound = preemptions, co = coroutines"}
+			if b, err := os.ReadFile(core.Root() + "/.bin/c09.racepass.json"); err == nil {
+				var v interface{}
+				if json.Unmarshal(b, &v) == nil {
+					m["free_running_race_pass"] = v
+				}
+			}
+			return m
+		},
 	})
 }
